@@ -77,13 +77,24 @@ impl UpdateGenerator for MarkdownUpdateGenerator {
                     language,
                     config_lines,
                     comment_lines,
-                    code_lines: _,
+                    code_lines,
                 } => {
                     let config = if config_lines.is_empty() {
                         "".into()
                     } else {
                         format!(" {{{}}}", config_lines.join_newline().trim_start())
                     };
+
+                    // a block without any code (empty or only comments) is not a
+                    // testcase, so there is no outcome for it: keep it as it is
+                    if code_lines.is_empty() {
+                        updated.push_str(&formatln!("```{}{}", &language, &config));
+                        for (_, line) in &comment_lines {
+                            updated.push_str(&line.assure_newline());
+                        }
+                        updated.push_str("```\n");
+                        continue;
+                    }
                     let generated = outcomes[testcase_index]
                         .generate_testcase()
                         .with_context(|| format!("testcase number {}", testcase_index + 1))?;
